@@ -44,7 +44,7 @@ for line in log:
     ran = {}
     try:
         for p in props:
-            out = sh("cd %s && ./check %s --tier quick" % (VERIF, p))
+            out = sh("cd %s && VERIF_EVIDENCE_DIR=%s/.work/seed-evidence ./check %s --tier quick" % (VERIF, VERIF, p))
             viol = [l for l in out.stdout.split("\n") if l.startswith("VIOLATION")]
             ran[p] = {"exit": out.returncode, "violations": viol[:4]}
             print(h, p, "exit", out.returncode, (viol[0][:160] if viol else "NO VIOLATION"))
